@@ -147,36 +147,42 @@ def run_impl(L, scenarios):
 
 def oracle(s, obs):
     """C19 on what squid did: every response is a complete copy of exactly one origin version (never a mixture, never a
-    short body presented as complete); versions served never go backwards along the (sequential) history; the first GET
-    after a successful PURGE, and every reload, carries a version fetched after it (a new origin request)."""
+    short body presented as complete); along the (sequential) history no response carries a version older than one
+    already served, none carries a version that was purged or replaced by a forced reload before the request was sent,
+    and a forced reload is answered by a new origin request."""
     if not obs.startswith("n="):
         return ("oracle:no-transaction", "the history did not run: " + obs)
     if "squid-log:" in obs:
         return ("oracle:squid-assertion", "squid logged an assertion/FATAL during the run: " + obs)
+    store = "rock" if s["size"] > MEMMAX else "mem"
     parts = obs.split()[1:]
     last = 0          # highest version seen so far
-    floor = 0         # versions <= floor were invalidated (purge / reload)
+    purged = 0        # versions <= purged were purged
+    replaced = 0      # versions <= replaced were replaced by a reload
     for op, p in zip(s["ops"], parts):
         kind, val = p.split(":", 1)
         if kind == "P":
             if val not in ("200", "404"):
                 return ("oracle:purge-status", "PURGE answered " + val)
-            floor = last
+            purged = last
             continue
         for o in val.split(","):
             if not (o.startswith("F") and o[1:].isdigit()):
                 return ("oracle:bad-copy:" + o.rstrip("0123456789:"),
                         "a response was `%s`: not a complete copy of one origin version" % o)
             v = int(o[1:])
-            if v <= floor:
-                return ("oracle:served-invalidated", "version %d was served after it had been purged / replaced (history %s)" % (v, obs))
+            if v <= purged:
+                return ("oracle:served-purged-version:" + store, "version %d was served after it had been purged (history %s)" % (v, obs))
+            if v <= replaced:
+                return ("oracle:served-replaced-version:" + store,
+                        "version %d was served after a forced reload had fetched version %d (history %s)" % (v, replaced + 1, obs))
             if v < last:
-                return ("oracle:version-went-back", "version %d served after version %d" % (v, last))
+                return ("oracle:version-went-back:" + store, "version %d served after version %d (history %s)" % (v, last, obs))
             if kind == "R" and v <= last:
                 return ("oracle:reload-not-forwarded", "a forced reload was answered with the cached version %d" % v)
         vs = [int(o[1:]) for o in val.split(",")]
         if kind == "R":
-            floor = max(vs) - 1
+            replaced = max(vs) - 1
         last = max([last] + vs)
     return None
 
@@ -190,6 +196,9 @@ def run(res, tier):
     std.run_lab(res, PID, tier, area="smp", gen_scenarios=gen_scenarios, run_impl=run_impl, to_case=to_case, oracle=oracle,
                 corr_name="SmpModel (history) vs the running SMP squid", n_quick=int(os.environ.get("VERIF_C19_N", "30")),
                 n_thorough=600, seed_salt=19,
-                kind_fn=lambda s, o: "mem" if s["size"] <= 80000 else "rock",
+                kind_fn=lambda s, o: "mem" if s["size"] <= MEMMAX else "rock",
+                # objects above maximum_object_size_in_memory live in rock only: whether a later request is a hit depends on
+                # when the disker finished the swap-out, so the served version is not predicted (the oracle still applies)
+                model_blind=lambda s: s["size"] > MEMMAX,
                 nontrivial_fn=lambda s, o: len(set(sum([[op[1]] if op[0] != "B" else op[1] for op in s["ops"]], []))) > 1)
     _state.clear()
